@@ -2,7 +2,10 @@ module verif/mc
 
 go 1.23
 
-require github.com/idena-network/idena-go v0.0.0
+require (
+	github.com/idena-network/idena-go v0.0.0
+	github.com/tendermint/tm-db v0.6.7
+)
 
 require (
 	github.com/RoaringBitmap/roaring v0.9.4 // indirect
@@ -86,7 +89,6 @@ require (
 	github.com/spaolacci/murmur3 v1.1.0 // indirect
 	github.com/syndtr/goleveldb v1.0.1-0.20200815110645-5c35d600f0ca // indirect
 	github.com/tendermint/tendermint v0.35.0 // indirect
-	github.com/tendermint/tm-db v0.6.7 // indirect
 	github.com/ulikunitz/xz v0.5.9 // indirect
 	github.com/urfave/cli v1.22.5 // indirect
 	github.com/whyrusleeping/cbor-gen v0.0.0-20210219115102-f37d292932f2 // indirect
